@@ -86,7 +86,7 @@ def plan(tier, seed):
 def required(tier):
     kinds = ['missing-required', 'extra-field-set', 'missing-field-set',
              'identified-into-unidentified', 'unidentified-into-identified',
-             'same-names-other-definitions']
+             'same-names-other-definitions', 'species-outside-file-dimension']
     cl = ['A:missing-required@0-file-creation-pending',
           'A:rejected-first-add-of-other-identification-kind']
     for kd in kinds:
@@ -167,6 +167,13 @@ def add_faults(rng, workdir, rec, k):
     nprng = np.random.default_rng(rng.getrandbits(32))
     identified = rng.random() < 0.5
     with_other = rng.random() < 0.5
+    with_species = (not with_other) and rng.random() < 0.5
+    sp_plan = None
+    if with_species:
+        from AEIC.types import Species as _S
+        base_sp = sorted(rng.sample([_S.CO2, _S.H2O, _S.NOx, _S.CO, _S.PMvol], 3))
+        sp_plan = {n: list(base_sp) for n, md in vf.VX_SPECIES.fields.items()}
+        outside = [x for x in _S if x not in base_sp]
     cache_items = rng.choice([1, 2, None, None])
     npts = rng.randint(2, 6)
     path = workdir / f'a{rng.getrandbits(40):x}.nc'
@@ -189,12 +196,15 @@ def add_faults(rng, workdir, rec, k):
                 used.add(f)
                 return f
 
-    def mk(fid, other):
+    def mk(fid, other, plan=None):
         uid[0] += 1
         t = trajgen.make_base_traj(nprng, npts, uid[0], flight_id=fid)
         if other:
             t.add_fields(vf.VX_OTHER)
             vf.fill(t, 'vx_other', rng)
+        if with_species:
+            t.add_fields(vf.VX_SPECIES)
+            vf.fill(t, 'vx_species', rng, plan=plan or sp_plan, unset_prob=0.0)
         return t
 
     def mk_good():
@@ -211,6 +221,12 @@ def add_faults(rng, workdir, rec, k):
             f = rng.choice(['starting_mass', 'total_fuel_mass'] + (['o_s'] if with_other else []))
             t._data[f] = None           # == the field was never set
             return t, f
+        if kind == 'species-outside-file-dimension':
+            # a species the file's species dimension (fixed by the first trajectory) lacks
+            field = rng.choice(sorted(sp_plan))
+            plan = {n: list(v) for n, v in sp_plan.items()}
+            plan[field] = plan[field] + [rng.choice(outside)]
+            return mk(new_id() if identified else None, with_other, plan), field
         if kind == 'same-names-other-definitions':
             uid[0] += 1
             t = trajgen.make_base_traj(nprng, npts, uid[0],
@@ -235,6 +251,8 @@ def add_faults(rng, workdir, rec, k):
         ks.append('missing-field-set' if with_other else 'extra-field-set')
         if with_other:
             ks.append('same-names-other-definitions')
+        if with_species and model:
+            ks.append('species-outside-file-dimension')
         ks.append('unidentified-into-identified' if identified else
                   'identified-into-unidentified')
         return ks
@@ -280,7 +298,8 @@ def add_faults(rng, workdir, rec, k):
             raise M('close() raised after a rejected addition',
                     {'error': f'{type(e).__name__}: {e}', 'log': log[-12:], **ctx})
 
-    info = {'identified': identified, 'with_other': with_other, 'cache_items': cache_items}
+    info = {'identified': identified, 'with_other': with_other, 'with_species': with_species,
+            'cache_items': cache_items}
     # ---- create session ------------------------------------------------------
     st = TrajectoryStore.create(base_file=path, cache_size_mb=cache_mb())
     try:
